@@ -4,6 +4,7 @@ package main
 import (
 	"fmt"
 	"math"
+	"time"
 	"unicode"
 	"unicode/utf8"
 
@@ -125,9 +126,19 @@ func obsStr(res string) string {
 type recSrc struct {
 	rng   *vhlib.Rng
 	draws []int64
+	over  chan struct{} // closed when the caller has drawn more than maxDraws values: it is looping
 }
 
+const maxDraws = 200000 // Shuffle of 64 runes needs < 64 draws plus rejections
+
 func (r *recSrc) next() uint32 {
+	if len(r.draws) >= maxDraws {
+		if r.over != nil {
+			close(r.over)
+			r.over = nil
+		}
+		select {} // park the looping caller for good (it would otherwise spin on a CPU for the rest of the run)
+	}
 	var d uint32
 	switch r.rng.Intn(8) {
 	case 0:
@@ -171,6 +182,15 @@ func main() {
 		replay["s"] = fmt.Sprintf("%+q", s)
 		replay["runes"] = rs
 		replay["observed"] = obs
+		replay["call"] = call
+		switch obs {
+		case "<skipped>":
+			return
+		case "<does not return>":
+			delete(replay, "draws")
+			w.Violation(label, "call does not return (watchdog)", replay)
+			return
+		}
 		w.Case(term, label, len(rs) >= 1, nil, replay)
 	}
 	classes := func(rs []rune) string {
@@ -192,58 +212,92 @@ func main() {
 		}
 		return vhlib.List(it)
 	}
-	// call a string-returning function with panic recovery
-	strCall := func(f func() string) string {
+	// Every call into the package runs under a watchdog: a call that does not return within callTimeout is a
+	// property violation of its own ("none of them panics" presupposes that they return). The hung goroutine cannot
+	// be killed, so a function that has hung twice is not called again in this run.
+	const hangObs, skipObs = "<does not return>", "<skipped>"
+	const callTimeout = 5 * time.Second
+	hangs := map[string]int{}
+	// guard runs f; abort, when not nil, is a second way of learning that f will not return
+	guard := func(label string, abort <-chan struct{}, f func()) (panicked bool, state string) {
+		if hangs[label] >= 2 {
+			return false, skipObs
+		}
+		done := make(chan bool, 1)
+		go func() {
+			p, _ := vhlib.Recover(f)
+			done <- p
+		}()
+		timer := time.NewTimer(callTimeout)
+		defer timer.Stop()
+		select {
+		case p := <-done:
+			return p, ""
+		case <-abort:
+		case <-timer.C:
+		}
+		hangs[label]++
+		return false, hangObs
+	}
+	strCallAbort := func(label string, abort <-chan struct{}, f func() string) string {
 		var res string
-		p, _ := vhlib.Recover(func() { res = f() })
+		p, st := guard(label, abort, func() { res = f() })
+		if st != "" {
+			return st
+		}
 		if p {
 			return "OPanic"
 		}
 		return obsStr(res)
 	}
+	strCall := func(label string, f func() string) string { return strCallAbort(label, nil, f) }
 
 	doPad := func(rs []rune, size int64, ch rune) {
 		s := string(rs)
 		a := map[string]interface{}{"size": size, "ch": ch}
 		cp := func() map[string]interface{} { return map[string]interface{}{"args": a} }
 		sz, c := vhlib.Z(size), vhlib.Z(int64(ch))
-		emit("PadLeftChar", rs, fmt.Sprintf("CPadLeftChar %s %s", sz, c), "", nil, strCall(func() string { return stringx.PadLeftChar(s, int(size), ch) }), cp())
-		emit("PadRightChar", rs, fmt.Sprintf("CPadRightChar %s %s", sz, c), "", nil, strCall(func() string { return stringx.PadRightChar(s, int(size), ch) }), cp())
-		emit("PadCenterChar", rs, fmt.Sprintf("CPadCenterChar %s %s", sz, c), "", nil, strCall(func() string { return stringx.PadCenterChar(s, int(size), ch) }), cp())
+		emit("PadLeftChar", rs, fmt.Sprintf("CPadLeftChar %s %s", sz, c), "", nil, strCall("PadLeftChar", func() string { return stringx.PadLeftChar(s, int(size), ch) }), cp())
+		emit("PadRightChar", rs, fmt.Sprintf("CPadRightChar %s %s", sz, c), "", nil, strCall("PadRightChar", func() string { return stringx.PadRightChar(s, int(size), ch) }), cp())
+		emit("PadCenterChar", rs, fmt.Sprintf("CPadCenterChar %s %s", sz, c), "", nil, strCall("PadCenterChar", func() string { return stringx.PadCenterChar(s, int(size), ch) }), cp())
 	}
 	doPadSpace := func(rs []rune, size int64) {
 		s := string(rs)
-		cp := func() map[string]interface{} { return map[string]interface{}{"args": map[string]interface{}{"size": size}} }
+		cp := func() map[string]interface{} {
+			return map[string]interface{}{"args": map[string]interface{}{"size": size}}
+		}
 		sz := vhlib.Z(size)
-		emit("PadLeftSpace", rs, "CPadLeftSpace "+sz, "", nil, strCall(func() string { return stringx.PadLeftSpace(s, int(size)) }), cp())
-		emit("PadRightSpace", rs, "CPadRightSpace "+sz, "", nil, strCall(func() string { return stringx.PadRightSpace(s, int(size)) }), cp())
-		emit("PadCenterSpace", rs, "CPadCenterSpace "+sz, "", nil, strCall(func() string { return stringx.PadCenterSpace(s, int(size)) }), cp())
+		emit("PadLeftSpace", rs, "CPadLeftSpace "+sz, "", nil, strCall("PadLeftSpace", func() string { return stringx.PadLeftSpace(s, int(size)) }), cp())
+		emit("PadRightSpace", rs, "CPadRightSpace "+sz, "", nil, strCall("PadRightSpace", func() string { return stringx.PadRightSpace(s, int(size)) }), cp())
+		emit("PadCenterSpace", rs, "CPadCenterSpace "+sz, "", nil, strCall("PadCenterSpace", func() string { return stringx.PadCenterSpace(s, int(size)) }), cp())
 	}
 	doSub := func(rs []rune, a, b int64) {
 		s := string(rs)
-		emit("Sub", rs, fmt.Sprintf("CSub %s %s", vhlib.Z(a), vhlib.Z(b)), "", nil, strCall(func() string { return stringx.Sub(s, int(a), int(b)) }),
+		emit("Sub", rs, fmt.Sprintf("CSub %s %s", vhlib.Z(a), vhlib.Z(b)), "", nil, strCall("Sub", func() string { return stringx.Sub(s, int(a), int(b)) }),
 			map[string]interface{}{"args": []int64{a, b}})
 	}
 	doSubStart := func(rs []rune, a int64) {
 		s := string(rs)
-		emit("SubStart", rs, "CSubStart "+vhlib.Z(a), "", nil, strCall(func() string { return stringx.SubStart(s, int(a)) }),
+		emit("SubStart", rs, "CSubStart "+vhlib.Z(a), "", nil, strCall("SubStart", func() string { return stringx.SubStart(s, int(a)) }),
 			map[string]interface{}{"args": []int64{a}})
 	}
 	doRotate := func(rs []rune, k int64) {
 		s := string(rs)
-		emit("Rotate", rs, "CRotate "+vhlib.Z(k), "", nil, strCall(func() string { return stringx.Rotate(s, int(k)) }),
+		emit("Rotate", rs, "CRotate "+vhlib.Z(k), "", nil, strCall("Rotate", func() string { return stringx.Rotate(s, int(k)) }),
 			map[string]interface{}{"args": []int64{k}})
 	}
 	doReverse := func(rs []rune) {
 		s := string(rs)
 		var r1, r2 string
 		var e1, e2 error
-		p, _ := vhlib.Recover(func() {
+		p, st := guard("Reverse", nil, func() {
 			r1, e1 = stringx.Reverse(s)
 			r2, e2 = stringx.Reverse(r1)
 		})
 		obs := "OPanic"
-		if !p {
+		if st != "" {
+			obs = st
+		} else if !p {
 			if !utf8.ValidString(r1) || !utf8.ValidString(r2) {
 				obs = "OInvalid"
 			} else {
@@ -251,41 +305,48 @@ func main() {
 			}
 		}
 		emit("Reverse", rs, "CReverse", "", nil, obs, map[string]interface{}{"result": fmt.Sprintf("%+q", r1), "err": fmt.Sprint(e1), "back": fmt.Sprintf("%+q", r2)})
-		emit("MustReverse", rs, "CMustReverse", "", nil, strCall(func() string { return stringx.MustReverse(s) }), map[string]interface{}{})
+		emit("MustReverse", rs, "CMustReverse", "", nil, strCall("MustReverse", func() string { return stringx.MustReverse(s) }), map[string]interface{}{})
 	}
 	doRemoveChar := func(rs []rune, ch rune) {
 		s := string(rs)
-		emit("RemoveChar", rs, "CRemoveChar "+vhlib.Z(int64(ch)), "", nil, strCall(func() string { return stringx.RemoveChar(s, ch) }),
+		emit("RemoveChar", rs, "CRemoveChar "+vhlib.Z(int64(ch)), "", nil, strCall("RemoveChar", func() string { return stringx.RemoveChar(s, ch) }),
 			map[string]interface{}{"args": []rune{ch}})
 	}
 	doRemoveString := func(rs []rune, m []rune) {
 		s := string(rs)
 		ms := string(m)
-		emit("RemoveString", rs, "CRemoveString "+runesZ(m), "", nil, strCall(func() string { return stringx.RemoveString(s, ms) }),
+		emit("RemoveString", rs, "CRemoveString "+runesZ(m), "", nil, strCall("RemoveString", func() string { return stringx.RemoveString(s, ms) }),
 			map[string]interface{}{"rm": fmt.Sprintf("%+q", ms), "rm_runes": m})
 	}
 	doShuffle := func(rs []rune) {
 		s := string(rs)
-		r := &recSrc{rng: rng.Fork()}
+		over := make(chan struct{})
+		r := &recSrc{rng: rng.Fork(), over: over}
 		fastrand.Uint32 = r.next
-		obs := strCall(func() string { return stringx.Shuffle(s) })
+		obs := strCallAbort("Shuffle", over, func() string { return stringx.Shuffle(s) })
 		fastrand.Uint32 = orig
+		if obs == hangObs {
+			r.draws = nil // a looping call is parked inside the source; its draws are not a replay
+		}
 		emit("Shuffle", rs, "CShuffle", "", r.draws, obs, map[string]interface{}{"draws": r.draws})
 	}
 	doIs := func(rs []rune) {
 		s := string(rs)
 		cls := classes(rs)
-		boolCall := func(f func(string) bool) string {
+		boolCall := func(label string, f func(string) bool) string {
 			var b bool
-			p, _ := vhlib.Recover(func() { b = f(s) })
+			p, st := guard(label, nil, func() { b = f(s) })
+			if st != "" {
+				return st
+			}
 			if p {
 				return "OPanic"
 			}
 			return "OBool " + vhlib.Bool(b)
 		}
-		emit("IsAlpha", rs, "CIsAlpha", cls, nil, boolCall(stringx.IsAlpha), map[string]interface{}{})
-		emit("IsNumeric", rs, "CIsNumeric", cls, nil, boolCall(stringx.IsNumeric), map[string]interface{}{})
-		emit("IsAlphanumeric", rs, "CIsAlphanumeric", cls, nil, boolCall(stringx.IsAlphanumeric), map[string]interface{}{})
+		emit("IsAlpha", rs, "CIsAlpha", cls, nil, boolCall("IsAlpha", stringx.IsAlpha), map[string]interface{}{})
+		emit("IsNumeric", rs, "CIsNumeric", cls, nil, boolCall("IsNumeric", stringx.IsNumeric), map[string]interface{}{})
+		emit("IsAlphanumeric", rs, "CIsAlphanumeric", cls, nil, boolCall("IsAlphanumeric", stringx.IsAlphanumeric), map[string]interface{}{})
 	}
 
 	// ---------- fixed inputs (documented examples) ----------
@@ -295,6 +356,41 @@ func main() {
 	doRotate([]rune("héllo"), 6)
 	doReverse([]rune("a\uFFFDb"))
 	doReverse([]rune("日本語"))
+
+	// ---------- runs of one rune, every encoded width (a string whose only permutation is itself) ----------
+	for _, c := range []rune{'a', ' ', 'é', '日', 0xFFFD, '😀', 0x0301} {
+		for _, n := range []int{2, 3, 5, 17, 64} {
+			rs := make([]rune, n)
+			for i := range rs {
+				rs[i] = c
+			}
+			variants := [][]rune{rs}
+			if n >= 3 {
+				v := append([]rune(nil), rs...)
+				v[n/2] = 'b' // a run with one foreign rune
+				variants = append(variants, v)
+			}
+			for _, v := range variants {
+				doShuffle(v)
+				doReverse(v)
+				doIs(v)
+				for _, k := range []int64{-1, 0, 1, int64(n) - 1, int64(n), int64(n) + 1, int64(2*n + 1)} {
+					doRotate(v, k)
+					doSubStart(v, k)
+					doSub(v, k-1, k+1)
+				}
+				doSub(v, 0, int64(n))
+				doSub(v, -int64(n), -1)
+				doPad(v, int64(n+3), c)
+				doPad(v, int64(n), '*')
+				doPadSpace(v, int64(n+2))
+				doRemoveChar(v, c)
+				doRemoveChar(v, 'b')
+				doRemoveString(v, []rune{c, c})
+				doRemoveString(v, []rune{c})
+			}
+		}
+	}
 
 	// ---------- bounded-exhaustive stream over a tiny universe ----------
 	small := []rune{'a', '日', 0xFFFD}
@@ -356,7 +452,7 @@ func main() {
 		{
 			ch, k := padChars[rng.Intn(len(padChars))], genArg(rng, 20, nonposExtremes)
 			emit("RepeatChar", nil, fmt.Sprintf("CRepeatChar %s %s", vhlib.Z(int64(ch)), vhlib.Z(k)), "", nil,
-				strCall(func() string { return stringx.RepeatChar(ch, int(k)) }), map[string]interface{}{"args": []int64{int64(ch), k}})
+				strCall("RepeatChar", func() string { return stringx.RepeatChar(ch, int(k)) }), map[string]interface{}{"args": []int64{int64(ch), k}})
 		}
 		doSub(rs, genArg(rng, n, extremes), genArg(rng, n, extremes))
 		doSub(rs, genArg(rng, n, extremes), genArg(rng, n, extremes))
@@ -423,5 +519,5 @@ func main() {
 		doIs(rs)
 	}
 	fastrand.Uint32 = orig
-	w.Close(o, "one case = one call of a stringx function on a generated valid UTF-8 string (rune pools: ASCII incl. NUL/DEL, 2-, 3-, 4-byte runes, U+FFFD, combining marks, non-ASCII digits; lengths 0..64; 11 profiles) with integer arguments in [-2n-2, 2n+2] or int64 extremes (pads: non-positive extremes only), plus a bounded-exhaustive stream over {a, 日, U+FFFD}^(<=3); Shuffle runs on a recorded fastrand.Uint32 source; distinct = distinct (string, call, observation) terms; non-trivial = non-empty input string")
+	w.Close(o, "one case = one call of a stringx function on a generated valid UTF-8 string (rune pools: ASCII incl. NUL/DEL, 2-, 3-, 4-byte runes, U+FFFD, combining marks, non-ASCII digits; lengths 0..64; 11 profiles) with integer arguments in [-2n-2, 2n+2] or int64 extremes (pads: non-positive extremes only), plus a bounded-exhaustive stream over {a, 日, U+FFFD}^(<=3); plus runs of one rune of every encoded width (lengths 2..64, also with one foreign rune) through every function; every call runs under a 5 s watchdog (a call that does not return is reported as a violation with the function and its arguments, and a function that has hung twice is not called again); Shuffle runs on a recorded fastrand.Uint32 source that parks a caller drawing more than 200000 values; distinct = distinct (string, call, observation) terms; non-trivial = non-empty input string")
 }
